@@ -156,11 +156,19 @@ def build_harness(cmd):
 
 
 def run_harness(cmd, args, timeout=1500, out_path=None):
-    """Run a harness binary; returns (rc, stdout_text). Output also saved to out_path."""
-    rc, out, dt = sh([os.path.join(BUILD, cmd)] + [str(a) for a in args], timeout=timeout, env=GOENV)
+    """Run a harness binary; returns (rc, stdout_text, seconds). stderr is kept apart (appended on failure)."""
+    t0 = time.time()
+    try:
+        p = subprocess.run([os.path.join(BUILD, cmd)] + [str(a) for a in args], stdout=subprocess.PIPE,
+                           stderr=subprocess.PIPE, timeout=timeout, env=GOENV)
+        rc, out, err = p.returncode, p.stdout.decode("utf-8", "replace"), p.stderr.decode("utf-8", "replace")
+    except subprocess.TimeoutExpired as e:
+        rc, out, err = 124, (e.stdout or b"").decode("utf-8", "replace"), "[timeout after %ss]" % timeout
+    if rc != 0:
+        out += "\n[stderr] " + err[-3000:]
     if out_path:
         open(out_path, "w").write(out)
-    return rc, out, dt
+    return rc, out, time.time() - t0
 
 
 def run_model(cases_text, timeout=1500):
